@@ -91,6 +91,9 @@ static void janetc_loadconst(JanetCompiler *c, Janet k, int32_t reg) {
             int32_t i = (int32_t) dval;
             if (dval != i)
                 goto do_constant;
+            /* -0.0 is not the integer 0 */
+            if (i == 0 && 1.0 / dval < 0)
+                goto do_constant;
             uint32_t iu = (uint32_t)i;
             janetc_emit(c,
                         (iu << 16) |
